@@ -224,12 +224,14 @@ fn run_history(alpha: &[Op], hist: &[usize], resume: bool) -> Result<(), (String
 // console vs file splitting
 // ---------------------------------------------------------------------------
 
-const SPLIT_ALPHABET: [u8; 5] = [b'a', b',', b' ', b'\r', b'\n'];
+/// 0xA0 (a no-break space in Latin-1 / Unicode) is an ordinary character for BASIC: only the blank is skipped and trimmed
+const SPLIT_ALPHABET: [u8; 6] = [b'a', b',', b' ', b'\r', b'\n', 0xA0];
+const SPLIT_BASE: u64 = SPLIT_ALPHABET.len() as u64;
 
 fn split_string(mut idx: u64, max: usize) -> Option<Vec<u8>> {
     let mut len = 1;
     loop {
-        let n = 5u64.pow(len as u32);
+        let n = SPLIT_BASE.pow(len as u32);
         if idx < n {
             break;
         }
@@ -241,14 +243,14 @@ fn split_string(mut idx: u64, max: usize) -> Option<Vec<u8>> {
     }
     let mut s = vec![];
     for _ in 0..len {
-        s.push(SPLIT_ALPHABET[(idx % 5) as usize]);
-        idx /= 5;
+        s.push(SPLIT_ALPHABET[(idx % SPLIT_BASE) as usize]);
+        idx /= SPLIT_BASE;
     }
     Some(s)
 }
 
 fn split_total(max: usize) -> u64 {
-    (1..=max as u32).map(|l| 5u64.pow(l)).sum()
+    (1..=max as u32).map(|l| SPLIT_BASE.pow(l)).sum()
 }
 
 fn run_split(data: &[u8]) -> Result<(), (String, String, String)> {
@@ -463,7 +465,7 @@ pub fn drive(tier: &str) -> i32 {
         run.capped = true;
     }
     let mut ev = Evidence::new("model_checking");
-    ev.set("rule", "alphabet: for handles 1 and 2 — OPEN of {a.txt, b.txt, pre.txt (exists, two lines), nodir/x.txt (cannot be created)} FOR INPUT / OUTPUT / APPEND, OPEN FOR RANDOM LEN=4 + FIELD, PRINT # of 5 items (one with a comma, a number, one without line end, one with a character above 127), LINE INPUT #, INPUT # of one string / two strings / an INTEGER, PRINT EOF, CLOSE #h, LSET + PUT of 3 values to records 1-2, GET of records 1-2 — plus CLOSE, KILL of each name, NAME a->b, b->a, pre->b (74 operations). tree: every history of length <= 3 (thorough 4) whose prefix succeeds in the model, including the failing last operation. trap: histories of length <= 2 (thorough 3) with up to two failing operations inside, run under ON ERROR GOTO + RESUME NEXT. bfs: breadth-first search over model states (store contents, handle table with read positions), every (state, operation) transition replayed after the shortest history reaching the state. split: every byte string up to length 4 (thorough 6) over {a , blank CR LF} read by INPUT #, console INPUT, LINE INPUT #, console LINE INPUT. Oracle: the printed trace, the end (normal, or the error code at the row of the failing statement; 'a file error' = any code in 50..76 where the property names no number), and the bytes of every file afterwards.");
+    ev.set("rule", "alphabet: for handles 1 and 2 — OPEN of {a.txt, b.txt, pre.txt (exists, two lines), nodir/x.txt (cannot be created)} FOR INPUT / OUTPUT / APPEND, OPEN FOR RANDOM LEN=4 + FIELD, PRINT # of 5 items (one with a comma, a number, one without line end, one with a character above 127), LINE INPUT #, INPUT # of one string / two strings / an INTEGER, PRINT EOF, CLOSE #h, LSET + PUT of 3 values to records 1-2, GET of records 1-2 — plus CLOSE, KILL of each name, NAME a->b, b->a, pre->b (74 operations). tree: every history of length <= 3 (thorough 4) whose prefix succeeds in the model, including the failing last operation. trap: histories of length <= 2 (thorough 3) with up to two failing operations inside, run under ON ERROR GOTO + RESUME NEXT. bfs: breadth-first search over model states (store contents, handle table with read positions), every (state, operation) transition replayed after the shortest history reaching the state. split: every byte string up to length 4 (thorough 6) over {a , blank CR LF CHR$(160)} read by INPUT #, console INPUT, LINE INPUT #, console LINE INPUT. Oracle: the printed trace, the end (normal, or the error code at the row of the failing statement; 'a file error' = any code in 50..76 where the property names no number), and the bytes of every file afterwards.");
     ev.set("exhaustive", !run.capped);
     ev.set("plan", json!(plan));
     ev.set("states", states as u64);
